@@ -231,6 +231,11 @@ func (s *Server) remove(key ssh.PublicKey) error {
 	if err != nil && !removed {
 		return err
 	}
+	// A certificate can be held in memory and by the underlying agent at the same time. The failure is
+	// only the expected "not found" answer when the underlying agent does not list the key (any more).
+	if err != nil && s.heldByAgent(key) {
+		return err
+	}
 
 	if s.noUpstreamSSHCACert {
 		// Remove the cert in the cache.
@@ -239,6 +244,22 @@ func (s *Server) remove(key ssh.PublicKey) error {
 	}
 
 	return nil
+}
+
+// heldByAgent reports whether the underlying agent lists the key. It is only consulted after a removal
+// that the underlying agent refused; when the list cannot be obtained either the key counts as held.
+func (s *Server) heldByAgent(key ssh.PublicKey) bool {
+	keys, err := s.agent.List()
+	if err != nil {
+		return true
+	}
+	blob := key.Marshal()
+	for _, k := range keys {
+		if bytes.Equal(k.Marshal(), blob) {
+			return true
+		}
+	}
+	return false
 }
 
 // filter removes the invalid certs in the memory or in the underlying agent.
